@@ -79,7 +79,7 @@ Lemma next_byte : forall S i F lo0 lo1,
     next i = Ok (Some (bz S F), i') /\ BInv S i' (F + 1) lo0' lo1' /\ same_rest i i' /\
     ((lo0' = lo0 /\ lo1' = lo1 /\ secondLoaded i' = secondLoaded i) \/
      (F + 1 = newest i lo0 lo1 + hnZ i /\ older i' lo0' lo1' = newest i lo0 lo1 /\
-      newest i' lo0' lo1' = newest i lo0 lo1 + hnZ i)).
+      newest i' lo0' lo1' = newest i lo0 lo1 + hnZ i /\ secondLoaded i' = negb (secondLoaded i))).
 Proof.
   intros S i F lo0 lo1 Hnn [HC He] HF.
   pose proof HC as [A B C D E G H I J K M]. destruct M as (M1 & M2 & M3).
@@ -119,7 +119,8 @@ Proof.
       * prj. intro Het. apply Hee in Het. unfold hnZ in *. ltbs; lia.
       * exists i', lo0, (lo0 + hnZ i). split; [exact Hr|]. split; [exact HI|].
         split; [eapply same_rest_trans; [|exact Hsr]; repeat split|].
-        right. unfold newest, older. rewrite Hsl. prj. unfold hnZ in *. ltbs; lia.
+        right. unfold newest, older. rewrite Hsl. prj. unfold hnZ in *.
+        repeat split; try reflexivity; ltbs; lia.
   - destruct (Z.eqb_spec (forward i + 1) (2 * hnZ i)) as [Hb2|Hb2].
     + (* forward reached the end of the second half: wrap around *)
       destruct (secondLoaded i) eqn:Esl.
@@ -143,7 +144,8 @@ Proof.
         -- prj. intro Het. apply Hee in Het. unfold hnZ in *. ltbs; lia.
         -- exists i', (lo1 + hnZ i), lo1. split; [exact Hr|]. split; [exact HI|].
            split; [eapply same_rest_trans; [|exact Hsr]; repeat split|].
-           right. unfold newest, older. rewrite Hsl. prj. unfold hnZ in *. ltbs; lia.
+           right. unfold newest, older. rewrite Hsl. prj. unfold hnZ in *.
+        repeat split; try reflexivity; ltbs; lia.
       * (* the first half is already there *)
         cbn [bind].
         destruct (finish_next S (bz S F) (set_fw (set_fw i (forward i + 1)) 0) (F + 1) lo0 lo1 Hnn)
@@ -164,4 +166,55 @@ Proof.
       * exists i', lo0, lo1. split; [exact Hr|]. split; [exact HI|].
         split; [eapply same_rest_trans; [|exact Hsr]; repeat split|].
         left. repeat split. rewrite Hsl. reflexivity.
+Qed.
+
+(* ------------------------------------------------------------------ how the window moves *)
+
+(** Buffer index [x] holds the source byte at offset [a]. *)
+Definition maps (n lo0 lo1 a x : Z) : Prop :=
+  0 <= x < 2 * n /\ a = (if x <? n then lo0 + x else lo1 + x - n).
+
+(** Offsets from [o'] on keep their buffer index when the window moves. *)
+Definition wkeep (n lo0 lo1 lo0' lo1' o' : Z) : Prop :=
+  forall a x, o' <= a -> maps n lo0 lo1 a x -> maps n lo0' lo1' a x.
+
+(** The start [o] of the window moves forward to [o'], never beyond [Fn - n], and what stays in
+    the window stays in place. *)
+Definition wstep (n o lo0 lo1 o' lo0' lo1' Fn : Z) : Prop :=
+  o <= o' /\ o' <= Z.max o (Fn - n) /\ wkeep n lo0 lo1 lo0' lo1' o'.
+
+Lemma wstep_refl : forall n o lo0 lo1 Fn, wstep n o lo0 lo1 o lo0 lo1 Fn.
+Proof. intros. unfold wstep, wkeep. split; [lia|]. split; [lia|]. intros; assumption. Qed.
+
+Lemma wstep_trans : forall n o a0 a1 o1 b0 b1 F1 o2 c0 c1 F2,
+  wstep n o a0 a1 o1 b0 b1 F1 -> wstep n o1 b0 b1 o2 c0 c1 F2 -> F1 <= F2 ->
+  wstep n o a0 a1 o2 c0 c1 F2.
+Proof.
+  unfold wstep, wkeep. intros n o a0 a1 o1 b0 b1 F1 o2 c0 c1 F2 (A1 & A2 & A3) (B1 & B2 & B3) HF.
+  split; [lia|]. split; [lia|]. intros a x Ha Hm. apply B3; [lia|]. apply A3; [lia|exact Hm].
+Qed.
+
+Lemma wstep_weaken : forall n o a0 a1 o1 b0 b1 F1 F2,
+  wstep n o a0 a1 o1 b0 b1 F1 -> F1 <= F2 -> wstep n o a0 a1 o1 b0 b1 F2.
+Proof. unfold wstep. intros n o a0 a1 o1 b0 b1 F1 F2 (A & B & C) H. split; [lia|]. split; [lia|exact C]. Qed.
+
+Lemma next_byte_wstep : forall S i F lo0 lo1 i' lo0' lo1',
+  BInv S i F lo0 lo1 -> BInv S i' (F + 1) lo0' lo1' -> hn i' = hn i ->
+  ((lo0' = lo0 /\ lo1' = lo1 /\ secondLoaded i' = secondLoaded i) \/
+   (F + 1 = newest i lo0 lo1 + hnZ i /\ older i' lo0' lo1' = newest i lo0 lo1 /\
+    newest i' lo0' lo1' = newest i lo0 lo1 + hnZ i /\ secondLoaded i' = negb (secondLoaded i))) ->
+  wstep (hnZ i) (older i lo0 lo1) lo0 lo1 (older i' lo0' lo1') lo0' lo1' (F + 1).
+Proof.
+  intros S i F lo0 lo1 i' lo0' lo1' [HC _] [HC' _] Hhn Hw.
+  destruct Hw as [(-> & -> & Hsl)|(H1 & H2 & H3 & H4)].
+  - unfold older. rewrite Hsl. apply wstep_refl.
+  - pose proof (bi_order _ _ _ _ _ HC) as O. pose proof (bi_order _ _ _ _ _ HC') as O'.
+    pose proof (bi_n _ _ _ _ _ HC) as Hn.
+    assert (Hh : hnZ i' = hnZ i) by (unfold hnZ; congruence).
+    unfold wstep, wkeep, maps, newest, older in *. rewrite H4 in *. rewrite Hh in *.
+    destruct (secondLoaded i); cbn [negb] in *.
+    + split; [lia|]. split; [lia|]. intros a x Ha (Hx & Hax). split; [lia|].
+      destruct (Z.ltb_spec x (hnZ i)); lia.
+    + split; [lia|]. split; [lia|]. intros a x Ha (Hx & Hax). split; [lia|].
+      destruct (Z.ltb_spec x (hnZ i)); lia.
 Qed.
